@@ -46,6 +46,9 @@ type Pkg struct {
 	pm         *parseModel
 	api        *apiScope
 	varWritten map[*types.Var]bool
+	// alias analysis of package-level tables (aliasw.go)
+	parents   map[ast.Node]ast.Node
+	aliasMemo map[types.Object]*aliasVerdict
 	// R01.scan's observations of the element cut (scan.go): probes run, first problem
 	scanCutN   int
 	scanCutBad string
@@ -60,6 +63,8 @@ type Pkg struct {
 }
 
 type World struct {
+	// module-internal helper packages merged into the version packages (mergeint.go)
+	MergeNotes []string
 	normalized bool // this world is the source-normalised variant (normalize.go)
 	Repo       string
 	Pkgs       map[string]*Pkg
@@ -127,10 +132,26 @@ func loadOverlay(repo, goarch string, overlay map[string][]byte) (*World, error)
 	if len(pkgs) != 4 {
 		return nil, fmt.Errorf("coverage guard: expected 4 packages, loaded %d", len(pkgs))
 	}
-	w := &World{Repo: repo, Pkgs: map[string]*Pkg{}, All: pkgs, Extra: map[string]any{}}
+	// helper packages of the same module are merged into their importers (mergeint.go)
+	if merged, notes, err := mergeInternalPackages(cfg, pkgs, overlay); err != nil {
+		return nil, fmt.Errorf("merging module-internal packages: %v", err)
+	} else if merged != nil {
+		w2, err := loadOverlay(repo, goarch, merged)
+		if err != nil {
+			return nil, fmt.Errorf("after merging module-internal packages (%s): %v", strings.Join(notes, "; "), err)
+		}
+		w2.Overlay = merged
+		w2.MergeNotes = append(notes, w2.MergeNotes...)
+		return w2, nil
+	}
+	w := &World{Repo: repo, Pkgs: map[string]*Pkg{}, All: pkgs, Extra: map[string]any{}, Overlay: overlay}
 	for _, p := range pkgs {
 		if len(p.Errors) > 0 {
-			return nil, fmt.Errorf("package %s has errors: %v", p.PkgPath, p.Errors[0])
+			msg := fmt.Sprint(p.Errors[0])
+			for _, e := range p.Errors[1:min(len(p.Errors), 4)] {
+				msg += "; " + fmt.Sprint(e)
+			}
+			return nil, fmt.Errorf("package %s has errors: %s", p.PkgPath, msg)
 		}
 		if p.IllTyped || p.Types == nil || p.TypesInfo == nil {
 			return nil, fmt.Errorf("package %s is ill-typed", p.PkgPath)
